@@ -1034,6 +1034,104 @@ theorem children_invariant [DecidableEq Cmd] (Q : Layer σc Ev Cmd Reply → Pro
     | cons ev rest ih => intro P h; exact ih _ (children_step Q PH Hc nil hQ P ev h)
   exact (key evs _ ⟨by simpa [Layer.init] using h0, by simp [Layer.init]⟩).kids
 
+
+/-! #### whatever `handle_event` preserves of the chosen layer survives buffering, replay and hand-over -/
+
+private theorem replay_Q [DecidableEq Cmd] (Q : Layer σc Ev Cmd Reply → Prop) (Hc : Handler σc Ev Cmd Reply) (nil : Reply)
+    (hQ : ∀ ch ev, Q ch → Q (handleEvent Hc nil ch ev).1) (evs : List (Event Ev Cmd Reply)) :
+    ∀ ch : Layer σc Ev Cmd Reply, Q ch → Q (replay Hc nil ch evs).1 := by
+  induction evs with
+  | nil => intro ch h; exact h
+  | cons e t ih => intro ch h; exact ih _ (hQ ch e h)
+
+private theorem nlq_fresh [DecidableEq Cmd] (Q : Layer σc Ev Cmd Reply → Prop) (P : NLParams Ev Cmd Reply)
+    (Hc : Handler σc Ev Cmd Reply) (nil : Reply) (hQ : ∀ ch ev, Q ch → Q (handleEvent Hc nil ch ev).1)
+    (L : Layer (NLState σc Ev Cmd Reply) Ev Cmd Reply) (ev : Event Ev Cmd Reply) (hq : Q L.st.child) :
+    Q (handleFresh (nlHandler P Hc nil) nil L ev).1.st.child := by
+  cases hh : L.st.handed with
+  | false =>
+    cases hk : nlKind P ev with
+    | start =>
+      cases ha : P.askOnStart with
+      | true => simpa [handleFresh, nlHandler, hh, hk, ha, nlAsk, run] using hq
+      | false => simpa [handleFresh, nlHandler, hh, hk, ha, run] using hq
+    | data => simpa [handleFresh, nlHandler, hh, hk, nlAsk, run] using hq
+    | clientClosed => simpa [handleFresh, nlHandler, hh, hk, run] using hq
+    | other => simpa [handleFresh, nlHandler, hh, hk, run] using hq
+  | true =>
+    simp only [handleFresh]
+    rw [run_handed P Hc nil L.st ev hh]
+    exact hQ _ _ hq
+
+private theorem nlq_drain [DecidableEq Cmd] (Q : Layer σc Ev Cmd Reply → Prop) (P : NLParams Ev Cmd Reply)
+    (Hc : Handler σc Ev Cmd Reply) (nil : Reply) (hQ : ∀ ch ev, Q ch → Q (handleEvent Hc nil ch ev).1)
+    (q : List (Event Ev Cmd Reply)) : ∀ (L : Layer (NLState σc Ev Cmd Reply) Ev Cmd Reply), Q L.st.child →
+    Q (drain (nlHandler P Hc nil) nil L q).1.st.child := by
+  induction q with
+  | nil => intro L h; exact h
+  | cons ev rest ih =>
+    intro L h
+    cases hp : L.paused with
+    | some pk => simpa [drain, hp] using h
+    | none => simp only [drain, hp]; exact ih _ (nlq_fresh Q P Hc nil hQ L ev h)
+
+private theorem nlq_step [DecidableEq Cmd] (Q : Layer σc Ev Cmd Reply → Prop) (P : NLParams Ev Cmd Reply)
+    (Hc : Handler σc Ev Cmd Reply) (nil : Reply) (hQ : ∀ ch ev, Q ch → Q (handleEvent Hc nil ch ev).1)
+    (ch0 : Layer σc Ev Cmd Reply) (L : Layer (NLState σc Ev Cmd Reply) Ev Cmd Reply) (ev : Event Ev Cmd Reply)
+    (hd : NLD P Hc nil ch0 L) (hq : Q L.st.child) : Q (handleEvent (nlHandler P Hc nil) nil L ev).1.st.child := by
+  cases hp : L.paused with
+  | none => rw [he_idle _ nil L ev hp]; exact nlq_fresh Q P Hc nil hQ _ ev hq
+  | some pk =>
+    obtain ⟨c, k⟩ := pk
+    by_cases hm : ∃ r, ev = .completed c r
+    · obtain ⟨r, rfl⟩ := hm
+      rw [he_match _ nil L c k r hp]
+      simp only [resumeWith]
+      apply nlq_drain Q P Hc nil hQ
+      have hh : L.st.handed = false := by
+        cases hh : L.st.handed with
+        | false => rfl
+        | true => have := (hd.post hh).1; rw [hp] at this; cases this
+      have hk : k = nlAskCont P Hc nil L.st := (hd.pre hh).2.2 c k hp
+      subst hk
+      cases hdec : P.decide r with
+      | false => simpa [nlAskCont, hdec, run] using hq
+      | true =>
+        show Q (run (Ev := Ev) nil (nlAskCont P Hc nil L.st r)).st.child
+        rw [run_askcont_true P Hc nil L.st r hdec]
+        exact replay_Q Q Hc nil hQ _ _ hq
+    · rw [he_other _ nil L c k ev hp (fun r h => hm ⟨r, h⟩)]
+      exact hq
+
+/-- **The layer chosen by NextLayer is only ever driven through its `handle_event`** — while buffered events
+    are replayed, while the events queued during the hook are forwarded through the re-bound `_handle_event`,
+    and after NextLayer has swapped itself out.  Hence every property `Q` of the child that `handle_event`
+    preserves holds of it after every schedule delivered to the NextLayer. -/
+theorem nextlayer_child_invariant [DecidableEq Cmd] (Q : Layer σc Ev Cmd Reply → Prop) (P : NLParams Ev Cmd Reply)
+    (Hc : Handler σc Ev Cmd Reply) (nil : Reply) (hQ : ∀ ch ev, Q ch → Q (handleEvent Hc nil ch ev).1)
+    (ch0 : Layer σc Ev Cmd Reply) (h0 : ch0.arrived = []) (hq0 : Q ch0) (evs : List (Event Ev Cmd Reply)) :
+    Q (nlRunSched P Hc nil (nlInit ch0) evs).st.child := by
+  have key : ∀ (evs : List (Event Ev Cmd Reply)) (L : Layer (NLState σc Ev Cmd Reply) Ev Cmd Reply),
+      Q L.st.child → (L.st.handed = false → NLD P Hc nil ch0 L) → Q (nlRunSched P Hc nil L evs).st.child := by
+    intro evs
+    induction evs with
+    | nil => intro L h _; exact h
+    | cons ev rest ih =>
+      intro L hq hd
+      simp only [nlRunSched]
+      cases hh : L.st.handed with
+      | true =>
+        apply ih
+        · simpa [nlHandleEvent, hh] using hQ _ ev hq
+        · intro hc; simp [nlHandleEvent, hh] at hc
+      | false =>
+        have e : nlHandleEvent P Hc nil L ev = handleEvent (nlHandler P Hc nil) nil L ev := by
+          simp [nlHandleEvent, hh]
+        rw [e]
+        exact ih _ (nlq_step Q P Hc nil hQ ch0 L ev (hd hh) hq) (fun _ => nld_step P Hc nil ch0 h0 L ev (hd hh))
+  exact key evs (nlInit ch0) (by simpa [nlInit, Layer.init] using hq0)
+    (fun _ => ⟨fun _ => by simp [nlInit, Layer.init, handled], fun h => by simp [nlInit, Layer.init] at h⟩)
+
 end generic
 
 /-! ### the interpreted programs of the correspondence run satisfy the hypotheses above -/
@@ -1133,6 +1231,18 @@ theorem tree_every_layer_in_order (d : Nat) (L0 : Layer (TS d) Ev Cmd Reply) (h0
     | nil => intro L h; exact h
     | cons ev rest ih => intro L h; exact ih _ (tree_step d L ev h)
   exact key evs L0 (allInv_fresh d L0 h0)
+
+
+private theorem fresh_arrived : ∀ (d : Nat) (L : Layer (TS d) Ev Cmd Reply), FreshTree d L → L.arrived = []
+  | 0, _, h => by obtain ⟨n, rfl⟩ := h; rfl
+  | _ + 1, _, h => by obtain ⟨n, chs, rfl, _⟩ := h; rfl
+
+/-- a whole layer tree behind a NextLayer: after any schedule (before, during and after the hand-over) every
+    layer of the tree still satisfies the single-layer invariant w.r.t. its own arrivals -/
+theorem nextlayer_tree_in_order (P : NLParams Ev Cmd Reply) (d : Nat) (L0 : Layer (TS d) Ev Cmd Reply)
+    (h0 : FreshTree d L0) (evs : List E) : AllInv d (nlRunSched P (HT d) 0 (nlInit L0) evs).st.child :=
+  nextlayer_child_invariant (AllInv d) P (HT d) 0 (fun ch ev h => tree_step d ch ev h) L0
+    (fresh_arrived d L0 h0) (allInv_fresh d L0 h0) evs
 
 /-- a parent in the tree is never paused by a command of a descendant: it pauses only on commands carrying
     its own index (instance of `parent_pauses_only_on_own_commands`; the index is part of the node state) -/
